@@ -82,8 +82,8 @@ func runC14(r *Run) {
 
 	// (4) momentum content
 	fb := "chain.(*accountPool).filterBlocksToCommit"
-	r.Alias("$batch", "append(iter(make([]*nom.AccountBlock)),list(a0[iter]))")
-	r.Alias("$commit", "iter(make([]*nom.AccountBlock))")
+	r.Alias("$batch", "append(iter(make([]*nom.AccountBlock,0,chain.MaxAccountBlocksInMomentum)),list(a0[iter]))")
+	r.Alias("$commit", "iter(make([]*nom.AccountBlock,0,len(a0)))")
 	r.Branch(fb, "ne(4,a0[iter].BlockType)", "a batch ends only on a block that is not a contract send: a contract's receive and its descendant sends are never split")
 	r.Branch(fb, "lt(chain.MaxAccountBlocksInMomentum,(len($commit)+len($batch)))", "a batch is committed only while the total stays within the per-momentum limit")
 	r.Returns(fb, []string{"$commit"}, "the offered content is the committed prefix")
